@@ -73,6 +73,9 @@ def peer_lists(kind):
         elif kind == 'gex2048-both':
             sel = {'kex': ['diffie-hellman-group-exchange-sha256', 'diffie-hellman-group-exchange-sha1', 'curve25519-sha256'], 'key': ['ssh-ed25519'], 'enc': ['aes256-ctr'],
                    'mac': ['hmac-sha2-256']}[cat]
+        elif kind in ('rsa-partial-2048', 'rsa-partial-1024'):
+            sel = {'kex': ['curve25519-sha256'], 'key': ['rsa-sha2-512', 'ssh-ed25519'] if kind.endswith('2048') else ['ssh-rsa'], 'enc': ['aes256-ctr'],
+                   'mac': ['hmac-sha2-256']}[cat]
         elif kind == 'terrapin-hardened':
             sel = {'kex': ['curve25519-sha256', 'kex-strict-s-v00@openssh.com'], 'key': ['ssh-ed25519'], 'enc': ['aes256-ctr', 'aes128-gcm@openssh.com'],
                    'mac': ['hmac-sha2-256', 'hmac-sha2-512']}[cat]
@@ -88,7 +91,7 @@ def peer_lists(kind):
 
 # the two directions of a KEXINIT may differ; the report rates the server-to-client lists
 ASYM_OTHER = {'enc': ['aes256-ctr', 'aes128-gcm@openssh.com'], 'mac': ['hmac-sha2-256', 'hmac-sha2-512']}
-PEER_KINDS = ['all', 'even', 'odd', 'clean', 'gex2048', 'gex2048-both', 'terrapin-hardened', 'unknowns', 'asym-s2c-weak', 'asym-c2s-weak']
+PEER_KINDS = ['all', 'even', 'odd', 'clean', 'gex2048', 'gex2048-both', 'rsa-partial-2048', 'rsa-partial-1024', 'terrapin-hardened', 'unknowns', 'asym-s2c-weak', 'asym-c2s-weak']
 
 
 def make_server(kind, banner):
@@ -100,8 +103,10 @@ def make_server(kind, banner):
     elif kind == 'asym-c2s-weak':
         kw = dict(enc_c2s=l['enc'], mac_c2s=l['mac'])
         l = dict(l, enc=ASYM_OTHER['enc'], mac=ASYM_OTHER['mac'])
+    rsa_bits = 2048 if kind.startswith('gex2048') or kind == 'rsa-partial-2048' else 1024 if kind == 'rsa-partial-1024' else 3072
+    l['_rsa_bits'] = rsa_bits
     return P.Server(kex=l['kex'], key=l['key'], enc=l['enc'], mac=l['mac'], banner=banner,
-                    host_keys=P.standard_host_keys(l['key'], rsa_bits=2048 if kind.startswith('gex2048') else 3072), gex=gex, **kw), l
+                    host_keys=P.standard_host_keys(l['key'], rsa_bits=rsa_bits), gex=gex, **kw), l
 
 
 def known_in(prod, version, cat, name):
@@ -204,6 +209,10 @@ def check_server(prod, version, banner, kind, mk, st):
             nf, nw, _ = H.db_levels(cat, name) if name in H.master_db()[cat] else (1, 0, 0)
             if nf or nw:
                 st.violation('addition-of-algorithm-with-fail-or-warn', dict(detail, cat=cat, name=name))
+            # the RSA signature algorithms share one host key: when the peer's RSA key was measured and rated, none of them is clean
+            if cat == 'key' and name in ('ssh-rsa', 'rsa-sha2-256', 'rsa-sha2-512') and lists.get('_rsa_bits', 4096) < 3072 and \
+                    any(k in ('ssh-rsa', 'rsa-sha2-256', 'rsa-sha2-512') for k in lists['key']):
+                st.violation('addition-of-algorithm-sharing-a-rated-host-key', dict(detail, cat=cat, name=name, rsa_bits=lists['_rsa_bits']))
             if (cat == 'key' and ('-cert-' in name or name.startswith('sk-'))) or (cat == 'kex' and (name.startswith('ext-info-') or name.startswith('kex-strict-'))):
                 st.violation('addition-of-cert-sk-or-pseudo-algorithm', dict(detail, cat=cat, name=name))
             if recognised and prod in ('OpenSSH', 'Dropbear SSH', 'libssh') and known_in(prod, version, cat, name) is False:
